@@ -125,7 +125,7 @@ class R:
         for h in hs:
             for l in self._msg_attr(h):
                 items.append("        " + l)
-            ctx = f"{CTX_OF[h['kind']]}<{q_t}>"
+            ctx = f"{CTX_OF[h.get('ctx_kind', h['kind'])]}<{q_t}>"
             params = ", ".join([h.get("self_text", "&self"), f"{h.get('ctx_attr', '')}ctx: {ctx}"] + self._params(h, in_trait=True))
             items.append(f"        fn {h['name']}({params}) -> {self._ret(h, m_t, 'Self::Error', in_trait=True)};")
         lines += items
@@ -144,7 +144,7 @@ class R:
             lines.append(f"    type {an} = {at};")
         mi, qi = (M, Q) if mode != "empty" else ("Empty", "Empty")
         for h in hs:
-            ctx = f"{CTX_OF[h['kind']]}<{qi}>"
+            ctx = f"{CTX_OF[h.get('ctx_kind', h['kind'])]}<{qi}>"
             params = ", ".join([f"&self", f"ctx: {ctx}"] + self._params(h, with_attrs=False))
             lines.append(f"    fn {h['name']}({params}) -> {self._ret(h, mi, part['error'])} {{")
             lines.append(f"        {self._body(h)}")
@@ -238,9 +238,11 @@ class R:
                 continue
             for l in self._msg_attr(h):
                 lines.append("    " + l)
-            ctx = f"{CTX_OF[h['kind']]}<{Q}>"
+            ctx = f"{CTX_OF[h.get('ctx_kind', h['kind'])]}<{Q}>"
             params = ", ".join([h.get("self_text", "&self"), f"{h.get('ctx_attr', '')}ctx: {ctx}"] + self._params(h))
             lines.append(f"    pub fn {h['name']}({params}) -> {self._ret(h, M, p['error'])} {{")
+            for bl in h.get("body_prefix", []):
+                lines.append("        " + bl)
             lines.append(f"        {self._body(h)}")
             lines.append("    }")
         for extra in c.get("extra_items", []):
